@@ -536,15 +536,31 @@ def run_users(spec):
         ps = su.ProgressStore('/tmp/progress-file', continue_seed=False)
         ps.add('task', ((0, 1),))
         ps.write()
+        # a new compact bundle (v2) / bundle index (v1) appears under its final name only complete: created through write_atomic
+        cp = L.load('mapproxy.cache.compact')
+        direct = []
+
+        def rec_open(name, mode='r', *a, **k):
+            direct.append((name, mode))
+            return io.BytesIO()
+        cp.__dict__['open'] = rec_open
+        cp.write_atomic = lambda loc, data: calls.append(('bundle', loc, data))
+        cp.ensure_directory = lambda *a, **k: None
+        b2 = cp.BundleV2('/nonexistent-cache/L03/R0000C0000', (0, 0))
+        b2._init_index()
+        i1 = cp.BundleIndexV1('/nonexistent-cache/L03/R0000C0000.bundlx')
+        i1._init_index()
     except PatchDoesNotApply as e:
         return dict(status='skipped', detail=str(e))
     kinds = [c[0] for c in calls]
-    ok = kinds == ['file', 'legend', 'progress'] and calls[0][1] == cache.tile_location(Tile((1, 2, 3))) and calls[0][2] == b'TILEDATA' \
+    ok = kinds == ['file', 'legend', 'progress', 'bundle', 'bundle'] and calls[0][1] == cache.tile_location(Tile((1, 2, 3))) and calls[0][2] == b'TILEDATA' \
         and calls[2][1] == '/tmp/progress-file'
+    ok = ok and calls[3][1] == b2.filename and len(calls[3][2]) == 64 + 128 * 128 * 8 and calls[4][1] == i1.filename \
+        and len(calls[4][2]) == 16 + 128 * 128 * 5 + 16 and not [d for d in direct if 'w' in d[1] or '+' in d[1]]
     st = dict(paths=3, queries=0, solver_s=0.0)
     if ok:
-        return dict(status='unsat', stats=st, functions=['FileCache._store', 'LegendCache.store', 'ProgressStore.write'],
-                    detail='file tile, legend and seed progress are written through write_atomic to their final name')
+        return dict(status='unsat', stats=st, functions=['FileCache._store', 'LegendCache.store', 'ProgressStore.write', 'BundleV2._init_index', 'BundleIndexV1._init_index'],
+                    detail='file tile, legend, seed progress and new compact bundle / bundle index files are written through write_atomic to their final name')
     return dict(status='sat', replayed=True, stats=st, cex=dict(calls=[list(map(str, c[:2])) for c in calls]),
                 detail='a store path bypasses write_atomic')
 
